@@ -134,8 +134,27 @@ CLAIMED["C17"] = dict(
    technique="Lean 4 counting proofs + sort uniqueness; differential correspondence; independent-definition oracle",
    ref="4 C17")
 
-PENDING = {"C11": "model and proofs for the bit-parallel kernels are being built (slice B); check not registered yet",
-           "C12": "UPGMA clade model/proofs are being built (slice B); check not registered yet"}
+CLAIMED["C11"] = dict(
+   text="Lean model of bpm_block (blocks, carries, wildcard padding, W extra text columns, the provably dead Ukkonen band), bpm (64-bit) and bpm_256 (AVX2 lanes), tied "
+        "bit-for-bit to the C routines. Theorems (all stages, no partial): Sellers' recurrence = min over substrings of Levenshtein distance; Myers cell rule; one block step "
+        "with carry (carry identity proved at any width, no bv_decide); C11_bpm_block_correct: bpmBlock t p = levSub (p.take 1024) t for any text over the 13 symbols; "
+        "C11_bpm64_correct, C11_bpm256_correct; the 256-bit add/shift lane emulations equal the wide operations. Oracle: real routines vs an independent plain DP in the "
+        "harness on exhaustive small pairs and random pairs around every multiple of 64 and the caps, AVX2 and non-AVX2 builds.",
+   note="Intel intrinsic semantics by specification; bpm_256 has UB (1 << 31 on int) for patterns >= 32 symbols - not used in production (BPM = bpm_block).",
+   technique="Lean 4 proof of Myers' bit-vector algorithm (block variant) against Sellers/Levenshtein; three-way differential correspondence",
+   ref="4 C11")
+CLAIMED["C12"] = dict(
+   text="Lean theorems: identical sequences are at raw distance 0 and a sequence that neither contains nor is contained in S (first 1024 symbols) at distance >= 1 "
+        "(via the C11 spec); UPGMA clade theorem over exact arithmetic: with d = alpha inside C and >= alpha + 1/2 outside, fewer than 100 leaves, every join touching C "
+        "before C is complete stays inside C (C12_upgma_clade_100), hence the copies form a clade (C12_copies_form_clade); identical groups align on the diagonal (C08) and "
+        "move together afterwards (C10). Tie: bit-exact correspondence of calc_distance, the distance matrix, upgma and the whole n<100 guide tree; exact-vs-binary32 UPGMA "
+        "agreement measured on margin-safe inputs. Oracle: duplicate groups in sets of 2..99 under the containment premise (independent substring test on full and reduced alphabet).",
+   note="A-float (binary32 averaging vs exact: margin 0.4). For sequences longer than 1024 symbols the theorem needs non-containment of the 1024-prefixes (bpm_block's cap); "
+        "the end-to-end claim for such inputs is searched, not proved.",
+   technique="Lean 4 invariant proof over UPGMA iterations + C11 spec; differential correspondence; duplicate-rows oracle",
+   ref="4 C12")
+
+PENDING = {}
 
 def main():
     props = [json.loads(l) for l in open(os.path.join(V, "properties.jsonl"))]
